@@ -127,7 +127,7 @@ def gen_op(rnd, vals, name, out_name, in_names, pool, n_state_extra=None, alg_ou
     return {'eqs': [[k, l, E.tolist(x)] for k, l, x in eqs], 'vars': dict(items)}
 
 
-WEIGHTS = ['one', 'uniq', 'uniq', 'uniq', 'neg', 'tiny', 'int']
+WEIGHTS = ['one', 'uniq', 'uniq', 'uniq', 'neg', 'tiny', 'int', 'nano']
 
 
 def gen_weight(rnd, vals):
@@ -138,6 +138,8 @@ def gen_weight(rnd, vals):
         return -vals.new()
     if k == 'tiny':
         return round(vals.new() * 1e-5, 9)
+    if k == 'nano':
+        return float(f"{vals.new() * 1e-9:.4e}")      # e.g. conductances in SI units
     if k == 'int':
         return float(rnd.choice([2, 3, 5, 7])) + 0.0 * vals.new()
     return round(vals.new() * rnd.choice([1, 2, 3]), 4)
